@@ -576,6 +576,21 @@ def multi_feature_case(rng, kind=None, n=None, n_feat=None, hostile=False, degen
         else:
             style = None if (allow_numeric_cat and ftype == "cat") else pick(rng, ["letters", "permuted", "words", "numeric_str"])
             vals, codes, names, meta = qual_column(rng, n, style=style)
+            if degenerate and ftype == "cat" and rng.random() < 0.35:
+                # identifier-like column: (nearly) every row has its own value, none reaches min_freq
+                vals = np.array([f"id{j}_{r}" for r in range(n)], dtype=object)
+                if rng.random() < 0.5:
+                    vals[rng.random(n) < 0.05] = np.nan
+                names = sorted({v for v in vals if isinstance(v, str)})
+                codes = np.zeros(n, int)
+                names_for_effect = ["x"]
+                meta = {"style": "ids", "nan_share": 0.0, "k": len(names)}
+                kk = 1
+                eff = rng.normal(0, 1, 2)
+                cols[name] = vals
+                c.qual.append(name)
+                metas[name] = meta
+                continue
             kk = len(names)
             eff = rng.normal(0, 1, kk + 1)
             score += eff[codes] * rng.choice([0, 0.5, 1.0])
